@@ -17,6 +17,10 @@ MODEL = 'buffer'
 BASE = 100
 
 
+class _Interrupt(BaseException):
+    pass
+
+
 class SrcError(Exception):
     pass
 
@@ -40,7 +44,7 @@ def gen_case(rng: random.Random, tier: str, bias: str = ''):
     ch = rng.choice([('random', 0.0), ('random', 0.0), ('sticky', 0.2, 0.0), ('sticky', 0.05, 0.0),
                      ('pct', 2, 200, 0.0), ('pct', 3, 200, 0.0)])
     return dict(kind=kind, n=n, src=src, maxsize=maxsize, stop_after=stop_after,
-                stop_mode=rng.choice(['close', 'close', 'del']), chooser=list(ch), seed=rng.randrange(1 << 30))
+                stop_mode=rng.choice(['close', 'close', 'del', 'throw']), chooser=list(ch), seed=rng.randrange(1 << 30))
 
 
 def nontrivial(case, res):
@@ -111,6 +115,11 @@ def run_case(case):
                     log(('close',))
                     if case['stop_mode'] == 'close':
                         gen.close()
+                    elif case['stop_mode'] == 'throw':
+                        try:
+                            gen.throw(_Interrupt())
+                        except _Interrupt:
+                            pass
                     else:
                         box[0] = None
                         gen = None
